@@ -149,10 +149,8 @@ func checkNewCall(
 		return nil
 	}
 
+	// new(*T) (also through type P = *T) allocates a pointer, not a T
 	t = types.Unalias(t)
-	if ptr, ok := t.(*types.Pointer); ok {
-		t = types.Unalias(ptr.Elem())
-	}
 
 	named, ok := t.(*types.Named)
 	if !ok {
